@@ -3,12 +3,14 @@
 
    The state is a workspace (ProtoValid records).  Init: a few small VALID workspaces.  Steps:
      - additive EDITS (AddMsg AddEnum AddVal AddFld AddMap AddOneof AddExt AddSvc AddMtd AddImport
-       AddRange AddRName AddDflt AddJson) with parameters from small pools; an edit is taken when the
+       AddRange AddRName AddDflt AddJson AddAliasVal AddDep AddGroup AddOptUse AddOptExt) with
+       parameters from small pools; an edit is taken when the
        result is valid (nadd counts them, at most MaxAdds); the small ones (MutAdds) are also taken when
        the result breaks exactly ONE rule (a near-valid mutant);
      - deliberate MUTATIONS of one attribute of a valid workspace (SetNum SetLabel Retarget SetSyntax
-       SetName SetPkg SetValNum DropLeaf SetMapKey SetDflt) that are taken only when the result
-       breaks exactly one rule.
+       SetName SetPkg SetValNum DropLeaf SetMapKey SetDflt DropAlias SetImpKind) that are taken only
+       when the result breaks exactly one rule.  Mutations apply to the descendants of MutBases with at
+       most MutMaxN edits; additive edits apply to GrowBases.
    `tag` = ProtoValid!Broken of the state: {} for a valid workspace, {rule} for a mutant; mutants are
    terminal.  Only Covered workspaces are generated.  TLC BFS enumerates every workspace within the
    edit bound; every state is exported with Valid / broken rule ids / references with their lookup
@@ -74,7 +76,8 @@ RichF1(syn, pkg) ==
   IN XFile("f1.proto", pkg, syn, <<Imp("f2.proto", "plain")>>,
        << [XMsg("m", 0) EXCEPT !.xr = IF p3 THEN <<>> ELSE << <<100, 199>> >>, !.rr = << <<5, 6>> >>, !.rn = <<"zn">>],
           [XFld("zf", 1, 1, sing, TScalar("int32")) EXCEPT !.dep = TRUE],
-          [XFld("z_f", 1, 2, IF syn = "editions" THEN "" ELSE "optional", TRef(Rel(<<"b">>))) EXCEPT !.dflt = IF p3 THEN "" ELSE "zb"],
+          [XFld("z_f", 1, 2, IF syn = "editions" THEN "" ELSE "optional", TRef(Rel(<<"b">>)))
+             EXCEPT !.dflt = IF p3 THEN "" ELSE "zb", !.json = IF p3 THEN "zj" ELSE ""],
           XMap("zm", 1, 3, "string", TScalar("int32")),
           XOneof("zo", 1),
           XFld("zi", 5, 4, "", TScalar("string")),
